@@ -147,9 +147,11 @@ def set_owner_process(uid, gid, initgroups=False):
             except KeyError:
                 initgroups = False
 
+        # initgroups() only fills the supplementary group list: the primary
+        # group still has to be set
         if initgroups:
             os.initgroups(username, gid)
-        elif gid != os.getgid():
+        if gid != os.getgid():
             os.setgid(gid)
 
     if uid and uid != os.getuid():
